@@ -45,5 +45,33 @@ mod mkeymap;
 mod output;
 mod util;
 
+/// Verification hooks: thin public wrappers around pure internal functions.
+///
+/// Compiled only with `--cfg clap_verif`; not part of the API.
+#[cfg(clap_verif)]
+#[doc(hidden)]
+pub mod __verif {
+    /// `output::textwrap::core::display_width`
+    #[cfg(feature = "help")]
+    pub fn display_width(text: &str) -> usize {
+        crate::output::display_width(text)
+    }
+
+    /// `output::textwrap::wrap`
+    #[cfg(feature = "help")]
+    pub fn wrap(content: &str, hard_width: usize) -> String {
+        crate::output::wrap(content, hard_width)
+    }
+
+    /// `StyledStr::wrap` on a string that may carry ANSI styling
+    #[cfg(feature = "help")]
+    pub fn styled_wrap(content: &str, hard_width: usize) -> String {
+        let mut styled = crate::builder::StyledStr::from(content.to_owned());
+        styled.wrap(hard_width);
+        let out = styled.ansi().to_string();
+        out
+    }
+}
+
 const INTERNAL_ERROR_MSG: &str = "Fatal internal error. Please consider filing a bug \
                                   report at https://github.com/clap-rs/clap/issues";
